@@ -123,10 +123,18 @@ Section Analyzer.
     mapM (fun ins => mapM (fun sf => an_entry l U ins (znat (snd sf))) outs) fins.
 
   (* ---------------- Analyzer._calculate_error_rate ----------------
-     error = 1; for o in expected[s]: if o in outputs: error -= iprobs[loc] / sum(iprobs).
-     The code has NO guard on sum(iprobs): a zero row gives 0/0 = nan, which
-     propagates through np.mean; nan is [None] here. *)
-  Definition an_row_error (row : list K) (outs : list state) (exp : list state) : option K :=
+     error = 1; for o in dict.fromkeys(expected[s]): if o in outputs:
+     error -= iprobs[loc] / sum(iprobs).  dict.fromkeys keeps the first occurrence
+     of every state (fix 23dccaf; before, the loop ran over the list itself:
+     an_row_error_pinned).  The code has NO guard on sum(iprobs): a zero row gives
+     0/0 = nan, which propagates through np.mean; nan is [None] here. *)
+  Fixpoint st_dedupe (l : list state) : list state :=                (* list(dict.fromkeys(l)) *)
+    match l with
+    | [] => []
+    | x :: l' => x :: filter (fun y => negb (st_eqb x y)) (st_dedupe l')
+    end.
+
+  Definition an_row_error_pinned (row : list K) (outs : list state) (exp : list state) : option K :=
     let tot := ksum row in
     fold_left (fun acc x =>
                  match acc with
@@ -139,6 +147,9 @@ Section Analyzer.
                      | None => Some er
                      end
                  end) exp (Some (k1 o)).
+
+  Definition an_row_error (row : list K) (outs : list state) (exp : list state) : option K :=
+    an_row_error_pinned row outs (st_dedupe exp).
 
   Fixpoint opt_all {A} (l : list (option A)) : option (list A) :=
     match l with
